@@ -38,6 +38,8 @@ def grids(scale):
         'to-saturation': numpy.concatenate([numpy.linspace(0.15, 0.95, 9), [0.99, 0.995, 0.9985, 0.9995]]),
         # a high-resolution scan across a condensation step: distinct pressures 4e-5 apart
         'high-resolution': numpy.concatenate([numpy.linspace(0.2, 0.58, 6), 0.6 + 4e-5 * numpy.arange(8), numpy.linspace(0.65, 0.95, 5)]),
+        # continuous dosing: more than a thousand points, still rising at the top
+        'long 1200': numpy.linspace(0.08, 0.992, 1200),
         # a micropore-resolution measurement: from far below the first point of any tabulated thickness curve
         'from 2e-8': numpy.concatenate([numpy.geomspace(2e-8, 0.05, 12), numpy.linspace(0.1, 0.9, 7)]),
     }
@@ -312,6 +314,8 @@ def run(ctx):
                 for tn in tnames:
                     for kn in (('Kelvin', 'Kelvin-KJS') if men == 'cylindrical' else ('Kelvin',)):
                         for gn in grids(1.0):
+                            if gn == 'long 1200' and (tn not in ('zero thickness', 'Halsey') or kn != 'Kelvin' or men == 'cylindrical'):
+                                continue        # (the long grid costs O(n^2) per configuration: every method and pore geometry, two thickness models)
                             for prn in (PROPS if (tn == 'zero thickness' or not ctx.quick) else ['N2@77']):
                                 jobs.append((method, pore, men, tn, kn, gn, prn, ctx.scale))
     res = core.pmap(work, jobs, chunk=8)
